@@ -694,6 +694,79 @@ func checkC17(p *Prog, r *Report) {
 		})
 		r.Check(okV, "NewCandidatePeerReflexive keeps the configured priority", p.Pos(f.Body.Pos()), "priorityOverride: config.Priority", "the constructor does not store the configured priority verbatim as the override")
 	}
+	// ---- R17.9 the relay protocol is that of the transport actually used -----------------------------------------
+	r.Rule("R17.9", "The transport of a TURN URL is read only through effectiveURLProtoType, which supplies the scheme's default when the URL leaves it unset: the relay protocol (and so the relay candidate's local preference) cannot be derived from the raw field while the connection is made with the effective one.", 1)
+	nProto, badProto := 0, ""
+	for _, f := range p.AllFuncs {
+		if f.Body == nil || f.Pkg != p.Ice {
+			continue
+		}
+		f := f
+		walkBody(f, func(x ast.Node) bool {
+			sel, ok := x.(*ast.SelectorExpr)
+			if !ok || sel.Sel.Name != "Proto" {
+				return true
+			}
+			t := typeStr(p.TypeOf(sel.X))
+			if t != "stun.URI" && t != "*stun.URI" {
+				return true
+			}
+			nProto++
+			if f.Root().Name != "effectiveURLProtoType" {
+				badProto = f.Name + " (" + p.Pos(sel.Pos()) + ")"
+			}
+			return true
+		})
+	}
+	r.Check(nProto > 0 && badProto == "", "readers of URI.Proto", "gather.go", "effectiveURLProtoType only", "the raw transport field of a TURN URL is read in "+badProto+": for a URL with an unset transport the value differs from the transport the agent connects with, so a relay candidate gets the local preference of another protocol")
+
+	// ---- R17.8 the configured offset is the offset -------------------------------------------------------------
+	r.Rule("R17.8", "Agent.tcpPriorityOffset receives the configured value verbatim (the dereferenced configuration pointer, or the option's parameter); the default constant is stored only where the configuration pointer is known to be nil — an explicitly configured offset, 0 included, is never replaced.", 2)
+	nOff := 0
+	for f, nodes := range p.WritersOf("Agent.tcpPriorityOffset") {
+		for _, nd := range nodes {
+			as, ok := nd.(*ast.AssignStmt)
+			if !ok || len(as.Lhs) != len(as.Rhs) {
+				continue
+			}
+			for i, l := range as.Lhs {
+				if !p.IsField(l, "Agent.tcpPriorityOffset") {
+					continue
+				}
+				nOff++
+				rhs := unparen(p.Deref(f, as.Rhs[i]))
+				switch {
+				case p.constName(rhs) == "defaultTCPPriorityOffset":
+					okNil := factListHas(p.DominatingFactList(f, as), func(ft Fact) bool {
+						return ft.Op == "==" && ft.Val && ft.Y != nil && p.isNilExpr(ft.Y) && p.IsField(ft.X, "AgentConfig.TCPPriorityOffset")
+					})
+					r.Check(okNil, "default TCP priority offset in "+f.Name, p.Pos(as.Pos()), "only under config.TCPPriorityOffset == nil", "the default offset is stored where the configured pointer is not known to be nil: an explicitly configured offset (for instance 0) is replaced by the default, so TCP type preferences are not 'reduced by the configured offset'")
+				default:
+					verb := false
+					if st, ok := rhs.(*ast.StarExpr); ok && p.IsField(st.X, "AgentConfig.TCPPriorityOffset") {
+						verb = true
+					}
+					if id, ok := rhs.(*ast.Ident); ok {
+						for fn := f; fn != nil; fn = fn.Parent {
+							for j := 0; ; j++ {
+								o := p.paramObj(fn, j)
+								if o == nil {
+									break
+								}
+								if p.ObjOf(id) == o {
+									verb = true
+								}
+							}
+						}
+					}
+					r.Check(verb, "configured TCP priority offset in "+f.Name, p.Pos(as.Pos()), "the configured value, verbatim", "the offset stored is "+stripVarLines(p.Canon(rhs))+", not the configured value verbatim")
+				}
+			}
+		}
+	}
+	if nOff == 0 {
+		r.Fail("writers of Agent.tcpPriorityOffset", "", "no store of the TCP priority offset found (rule instance lost)")
+	}
 }
 
 func identName(e ast.Expr) string {
